@@ -3,7 +3,7 @@ aborted from every teardown entry point, no dangling completion context."""
 import simlib
 import q, engines, handlers
 from handlers import EMPTY
-from simlib import is_node, strip_targs
+from simlib import is_node, strip_targs, walk
 
 EXPLANATION = ('C04: decides where every completion-handler value (aux::function) may flow: into a slot, into a closure consumed by post()/a timer wait, or down into a '
                'library function obeying the same rule; never invoked or dispatched inline on a path reachable from an initiating call; never borrowed (std::ref/&) by a '
@@ -323,6 +323,37 @@ def check(run):
     run.clause('R1 no closure, handler or packet field is filled by std::move of an object that a later iteration of the same loop moves again (moved-from reuse: only the first segment would carry its drop callback / only the first completion its handler)')
     nmv = engines.moved_in_loop(run, [f_ for f_ in fx.repo_functions() if f_.file.startswith(simlib.REPO_PREFIX + 'src/')])
     run.ok('R1', 'moved-from-in-loop', 'scan', '', 'std::move sites inside loops examined: %d' % nmv, nontrivial=False)
+    run.clause('a connect can be aborted in BOTH of its pending forms: waiting for the SYN-ACK (handler in m_connect_handler) and waiting out the refusal delay (handler owned by m_connect_timer): cancel() cancels the timer, and the refusal completion reports the timer\'s own error when it has one')
+    cnl = fx.fn1(TCP + '::cancel', '(boost::system::error_code &)')
+    run.touch(cnl)
+    tc_ = q.sites(cnl, lambda g_: [c for c in g_.calls() if (q.callee_name(c) or '').endswith('high_resolution_timer::cancel') and q.render(g_, c.get('obj')) == 'm_connect_timer'])
+    run.check(bool(tc_) and q.on_all_paths(cnl, tc_), 'R6-ABORT', 'refusal-cancellable', TCP + '::cancel', cnl.loc(),
+              'cancel() (and with it close() and the destructor) does not cancel m_connect_timer: a connect that is going to be refused cannot be aborted - its handler runs after the refusal delay with connection_refused although the operation was cancelled',
+              'm_connect_timer.cancel() on every path')
+    acn = fx.fn1(TCP + '::async_connect')
+    run.touch(acn)
+    for fl_ in [x for x in handlers.flows_in(fx, acn) if x.dest == 'timer']:
+        lam_ = [x for x in walk(fl_.site) if x['k'] == 'lambda']
+        uses_e = False
+        for l_ in lam_:
+            for lf in fx.by_usr(l_['fn']):
+                pn_ = [p_.get('name') for p_ in lf.params if p_.get('name')]
+                uses_e = uses_e or any(x_['k'] == 'ref' and x_.get('dk') == 'param' and x_.get('name') in pn_ for x_ in lf.all_nodes())
+        run.check(uses_e, 'R6-ABORT', 'refusal-cancellable', TCP + '::async_connect: refusal completion', acn.loc(fl_.site),
+                  'the refusal completion handed to m_connect_timer ignores the error the timer delivers (the handler is bound with the connect error only): when the wait is cancelled the handler still reports connection_refused instead of operation_aborted',
+                  'the completion passes the timer\'s error on when it has one')
+    run.clause('aborting a connect that waits for its SYN-ACK detaches the socket from the half-open connection: the channel is dropped and the forwarder replaced, so that neither the SYN-ACK nor data from a peer that accepts in the meantime reaches a later connection of this socket (and close() after cancel() sends nothing to the acceptor)')
+    abc = fx.fn(TCP + '::abort_connect', required=False)
+    host = abc[0] if abc else cnl
+    run.touch(host)
+    posts_ = [f_ for f_ in handlers.flows_in(fx, host) if f_.entity == 'field:' + TCP + '::m_connect_handler' and f_.dest == 'post']
+    drops_ = [c for c in host.calls() if (c.get('callee') or '').endswith('::reset') and q.render(host, c.get('obj')) == 'm_channel']
+    fresh_ = [a for a in q.field_accesses(host, {'sim::asio::socket_base::m_forwarder', TCP + '::m_forwarder'}) if a.kind == 'assign' and 'make_shared' in q.render(host, a.site)]
+    det_ = [c for c in host.calls() if (q.callee_name(c) or '').endswith('sink_forwarder::reset')]
+    okd = bool(posts_) and all(q.must_follow(host, p_.site, drops_) for p_ in posts_) and bool(fresh_) and bool(det_) and all(all(q.render(host, a_).replace('this->', '') == 'm_forwarder' and p2_ for a_, p2_ in q.guards_at(host, d_) if 'm_connect_handler' not in q.render(host, a_)) for d_ in det_)
+    run.check(okd, 'R6-ABORT', 'aborted-connect-detaches', host.norm, host.loc(),
+              'after aborting a pending connect the socket keeps its half-open channel and forwarder: close() then sends an EOF to the ACCEPTOR (aborting its pending accept), and a later connect of the same socket receives the stale SYN-ACK / data of the abandoned connection (crash in incoming_packet)',
+              'channel dropped, forwarder detached and replaced')
     run.clause('resolver: cancel() and the destructor complete every queued lookup with operation_aborted, whatever result the entry already holds (shared with C14)')
     import p14 as _p14
     for cn_ in fx.fn('sim::asio::ip::basic_resolver::cancel'):
